@@ -29,6 +29,9 @@ type c02Sc struct {
 	Mode    string `json:"mode"`
 	Prog    string `json:"prog"`
 	BodyNow bool   `json:"bodyNow"`
+	Method  string `json:"method"`
+	Proto   string `json:"proto"`
+	GetOnly bool   `json:"getOnly"`
 }
 
 type c02Out struct {
@@ -67,6 +70,7 @@ func c02Run(sc c02Sc, split int) (c02Out, []string) {
 	body := c02Body(sc.Size)
 	s := &Server{
 		StreamRequestBody:  sc.Stream,
+		GetOnly:            sc.GetOnly,
 		MaxRequestBodySize: 4 * c02Unit,
 		Logger:             csNopLogger{},
 		ReadTimeout:        5 * time.Second,
@@ -158,7 +162,10 @@ func c02Run(sc c02Sc, split int) (c02Out, []string) {
 	br := bufio.NewReader(cli)
 
 	var head bytes.Buffer
-	head.WriteString("POST /r1 HTTP/1.1\r\nHost: example.com\r\n")
+	fmt.Fprintf(&head, "%s /r1 HTTP/%s\r\nHost: example.com\r\n", sc.Method, sc.Proto)
+	if sc.Proto == "1.0" {
+		head.WriteString("Connection: keep-alive\r\n")
+	}
 	var wire []byte
 	if sc.Framing == "fixed" {
 		fmt.Fprintf(&head, "Content-Length: %d\r\n", len(body))
@@ -238,6 +245,8 @@ func c02Run(sc c02Sc, split int) (c02Out, []string) {
 	for len(out.Resps) < 400 {
 		cli.SetReadDeadline(time.Now().Add(10 * time.Second)) //nolint:errcheck
 		var resp Response
+		// the answer to a HEAD request carries no body whatever its header says
+		resp.SkipBody = sc.Method == "HEAD" && len(out.Resps) == 0
 		if err := resp.Read(br); err != nil {
 			break
 		}
@@ -326,6 +335,9 @@ func TestVerifC02ReqBody(t *testing.T) {
 				}
 				c := vfRec{"scenario": j.v.Sc, "split": j.split, "allowed": j.v.Allowed, "observed": got, "problems": problems}
 				sk := fmt.Sprintf("stream=%v framing=%s size=%d expect=%v mode=%s prog=%s bodyNow=%v", j.v.Sc.Stream, j.v.Sc.Framing, j.v.Sc.Size, j.v.Sc.Expect, j.v.Sc.Mode, j.v.Sc.Prog, j.v.Sc.BodyNow)
+				if j.v.Sc.Method != "POST" || j.v.Sc.Proto != "1.1" || j.v.Sc.GetOnly {
+					sk += fmt.Sprintf(" %s/%s getOnly=%v", j.v.Sc.Method, j.v.Sc.Proto, j.v.Sc.GetOnly)
+				}
 				if !ok {
 					vfViol("C02:outcome:"+sk+" -> "+got.String(), fmt.Sprintf("observed %s; the specification allows %v", got, j.v.Allowed), c)
 				} else if len(problems) > 0 {
